@@ -21,7 +21,8 @@ only = os.environ.get("VERIF_ONLY_UNITS")
 for line in sys.stdin:
     line = line.rstrip("\n")
     if "==>" not in line: continue
-    old, new = [x.strip() for x in line.split("==>")]
+    old, new = [x.strip(" ") for x in line.split("==>")]
+    old = old.replace("\\n", "\n"); new = new.replace("\\n", "\n")
     occ = 1
     if old.startswith("#"):
         occ = int(old[1]); old = old[2:].strip()
